@@ -19,8 +19,11 @@ def run_prop(pid, repo, tier, seed=0, evidence_dir=None, quiet=False):
     ctx = Ctx(pid, repo=repo, tier=tier)
     try:
         mod.run(ctx)
-        if tier == "thorough" and hasattr(mod, "run_thorough"):
-            mod.run_thorough(ctx)
+        if tier == "thorough":
+            if hasattr(mod, "run_thorough"):
+                mod.run_thorough(ctx)
+            from . import sweep
+            sweep.run(ctx)
         rc = finish(ctx, seed=seed, evidence_dir=evidence_dir, explanation=getattr(mod, "EXPLANATION", ""),
                     technique=getattr(mod, "TECHNIQUE", ""), quiet=quiet)
     except AnalysisError as e:
@@ -34,11 +37,13 @@ def run_prop(pid, repo, tier, seed=0, evidence_dir=None, quiet=False):
         return 2
     if rc == 0 and tier == "thorough" and not os.environ.get("LXS_NO_SELFTEST"):
         from . import selftest
-        st = selftest.run([pid], quiet=True)
+        # self-test of the checker on the *current* tree (mutants must fire, neutral twins stay silent).  On a tree that
+        # differs from the one the corpus was written for a variant may no longer mean what it meant, so a failure is
+        # reported and recorded in the evidence but does not change the verdict on the property; `./check selftest`
+        # is the strict form (exit 2).
+        st = selftest.run([pid], quiet=True, repo=repo)
         if st != 0:
-            print(f"ANALYSIS-ERROR property={pid}: self-test of the checker failed (./check selftest {pid})")
-            return 2
-        # record in evidence that the self-test ran
+            print(f"SELFTEST-WARNING property={pid}: self-test variants did not behave as recorded (./check selftest {pid})")
         selftest.annotate_evidence(pid)
     return rc
 
@@ -103,10 +108,7 @@ def main(argv=None):
     pids = PROPS if cmd == "all" else [cmd.upper()]
     worst = 0
     for pid in pids:
-        rc = run_prop(pid, repo, tier, seed, evidence_dir)
-        worst = max(worst, rc) if rc != 1 or worst != 2 else worst
-        if rc == 1 and worst < 1:
-            worst = 1
+        worst = max(worst, run_prop(pid, repo, tier, seed, evidence_dir))
     return worst
 
 
